@@ -281,7 +281,8 @@ def evaluate(spec, ctx):
             for f in var.get("faults", []):
                 ctx.faults_planned[f["seam"] + ":" + f["errno"]] += 1
             for f in res.fired:
-                ctx.probes["fault_fired_" + f["seam"]] += 1 if f["seam"] != "scandir" else 0
+                if f["seam"] != "scandir":
+                    ctx.probes["fault_fired_" + f["seam"]] += 1
                 if f.get("persist"):
                     ctx.probes["persistent_fault"] += 1
                 if f["seam"] == "scandir":
